@@ -602,6 +602,9 @@ def solve_projection_onto_manifold_newton_with_line_search(
                 if new_error < error:
                     break
                 step_size *= 0.5
+            else:
+                # No decrease found - position was last updated with previous step size
+                step_size *= 2.0
             mu += step_size * delta_mu
         except (ValueError, LinAlgError) as e:
             # Make robust to errors in intermediate linear algebra ops
